@@ -86,6 +86,8 @@ pub enum OOp {
     ReadGuard(usize),
     Get(usize),
     Read(usize),
+    /// try_read (must succeed, value compared), then try_write (must succeed) and set through it
+    TryGuards(usize, Val),
     Clone(usize),
     DropOwner(usize),
     Downgrade(usize),
@@ -158,6 +160,10 @@ pub trait Fl {
     fn s_guard(s: &Self::S, other: &Self::S, ops: &[GOp], results: &mut Vec<Res>);
     /// hold a read guard: (value read, try_write failed, try_read worked)
     fn s_read_guard(s: &Self::S, other: &Self::S) -> (Val, bool, bool);
+    /// no guard is held: try_read and try_write must both succeed; returns (value read, previous value of the set)
+    fn s_try_guards(s: &Self::S, v: Hk) -> Option<(Val, Val)>;
+    fn new_u_default() -> Self::U;
+    fn new_s_default() -> Self::S;
     fn s_clone(s: &Self::S) -> Self::S;
     fn s_downgrade(s: &Self::S) -> Self::W;
     fn s_counts(s: &Self::S) -> (usize, usize, usize, usize);
@@ -327,6 +333,18 @@ impl Fl for SyncFl {
         drop(g);
         (v, tw_failed, tr_ok)
     }
+    fn s_try_guards(s: &Self::S, v: Hk) -> Option<(Val, Val)> {
+        let r = s.try_read().ok()?.val();
+        let mut w = s.try_write().ok()?;
+        let prev = ObservableWriteGuard::set(&mut w, v).val();
+        Some((r, prev))
+    }
+    fn new_u_default() -> Self::U {
+        Default::default()
+    }
+    fn new_s_default() -> Self::S {
+        Default::default()
+    }
     fn s_clone(s: &Self::S) -> Self::S {
         s.clone()
     }
@@ -473,6 +491,18 @@ impl Fl for AsyncFl {
         drop(g);
         (v, tw_failed, tr_ok)
     }
+    fn s_try_guards(s: &Self::S, v: Hk) -> Option<(Val, Val)> {
+        let r = s.try_read()?.val();
+        let mut w = s.try_write()?;
+        let prev = ObservableWriteGuard::set(&mut w, v).val();
+        Some((r, prev))
+    }
+    fn new_u_default() -> Self::U {
+        Default::default()
+    }
+    fn new_s_default() -> Self::S {
+        Default::default()
+    }
     fn s_clone(s: &Self::S) -> Self::S {
         s.clone()
     }
@@ -606,10 +636,12 @@ pub fn run_obs_history<F: Fl>(h: &ObsHistory) -> Result<OFacts, Div> {
 fn run_inner<F: Fl>(h: &ObsHistory) -> Result<OFacts, Div> {
     let a = F::ASYNC;
     let mut w: World<F> = World { uniq: None, owners: vec![], weaks: vec![], subs: vec![] };
+    // the Default impls build the same thing as new(T::default())
+    let by_default = h.init == (0, 0) && h.ops.len() % 2 == 1;
     if h.shared {
-        w.owners.push(F::new_s(Hk::new(h.init)));
+        w.owners.push(if by_default { F::new_s_default() } else { F::new_s(Hk::new(h.init)) });
     } else {
-        w.uniq = Some(F::new_u(Hk::new(h.init)));
+        w.uniq = Some(if by_default { F::new_u_default() } else { F::new_u(Hk::new(h.init)) });
     }
     let mut m = Model { value: h.init, version: 1, closed: false, unique: !h.shared, subs: vec![] };
     let mut f = OFacts::default();
@@ -801,6 +833,24 @@ fn run_inner<F: Fl>(h: &ObsHistory) -> Result<OFacts, Div> {
                         bail!("C01", "step {step} read guard: value {v:?} (model {:?}), try_write failed = {tw_failed}, try_read ok = {tr_ok}", m.value);
                     }
                     Res::Value(v)
+                }
+                OOp::TryGuards(hh, v) => {
+                    if m.unique || w.owners.is_empty() || m.closed {
+                        break 'op Res::Skipped;
+                    }
+                    let s = &w.owners[hh % w.owners.len()];
+                    match F::s_try_guards(s, Hk::new(*v)) {
+                        None => bail!("C01", "step {step}: try_read/try_write failed although no guard is held"),
+                        Some((r, prev)) => {
+                            if r != m.value || prev != m.value {
+                                bail!("C01", "step {step} {op:?}: try_read saw {r:?}, set through try_write returned {prev:?}, stored value {:?}", m.value);
+                            }
+                            m.value = *v;
+                            m.version += 1;
+                            f.notifying += 1;
+                            Res::Prev(prev)
+                        }
+                    }
                 }
                 OOp::Get(hh) | OOp::Read(hh) => {
                     let v = if m.unique {
